@@ -26,7 +26,7 @@ def sh(cmd, cwd=None, env=None, timeout=3600):
 
 
 def main():
-    src, prop, sid = Path(sys.argv[1]), sys.argv[2], sys.argv[3]
+    src, prop, sid = Path(sys.argv[1]).resolve(), sys.argv[2], sys.argv[3]
     tier = "quick"
     if "--tier" in sys.argv:
         tier = sys.argv[sys.argv.index("--tier") + 1]
